@@ -751,7 +751,8 @@ func (fr *Frame) typeAssert(x *ssa.TypeAssert, st *State, g *Term) *Term {
 				okT = tFalse
 			}
 		} else {
-			okT = tAnd(tNot(tEq(iv.T, intLit(0))), c.fresh("implements", SBool))
+			// whether the dynamic type implements the interface is a function of the dynamic type
+			okT = c.implementsTerm(iv.T, at)
 		}
 		if x.CommaOk {
 			fr.vals[x] = Val{Tuple: []Val{{T: tIte(okT, iv.T, intLit(0)), Dyn: iv.Dyn, DynV: iv.DynV}, tv(okT)}}
